@@ -42,13 +42,16 @@ def eff(order):
     return NATIVE if order in ("none", None) else order
 
 
-def run_strategy(fn, fmt, order, size, seq, pad, variant):
-    """Returns (exception name or 'none', [bytes, ...])."""
+def run_strategy(fn, fmt, order, size, seq, pad, variant, default_pad=False):
+    """Returns (exception name or 'none', [bytes, ...]).  default_pad: the pad value is left at its default (only
+    used where no padding is needed, so that the default's type cannot matter)."""
     vals = [val(fmt, k) for k in seq]
     src = vals if variant % 3 == 0 else (iter(vals) if variant % 3 == 1 else (v for v in vals))
     bo = None if order == "none" else order
     try:
-        if variant % 2:
+        if default_pad:
+            gen = fn(src, size, fmt, bo) if variant % 2 else fn(src, size=size, dfmt=fmt, byte_order=bo)
+        elif variant % 2:
             gen = fn(src, size, fmt, bo, val(fmt, pad))
         else:
             gen = fn(src, size=size, dfmt=fmt, byte_order=bo, padval=val(fmt, pad))
@@ -108,17 +111,25 @@ def m2(ctx, al, module, cfg):
                                           case["pad"], v + 1),
                     "native": run_strategy(al.chunks.struct, case["fmt"], "none", case["size"], case["seq"],
                                            case["pad"], v)[1]}
+                if len(case["seq"]) % case["size"] == 0:
+                    # nothing to pad: the same bytes must come out when the pad value is left at its default
+                    for strat in ("struct", "array"):
+                        cache[key][strat + "-default-pad"] = run_strategy(
+                            getattr(al.chunks, strat), case["fmt"], case["order"], case["size"], case["seq"],
+                            case["pad"], v + (strat == "array"), default_pad=True)
             obs = cache[key]
             exp = st["out"]
             done = st["st"] == "done"
             desc = {"dfmt": case["fmt"], "byte_order": None if case["order"] == "none" else case["order"],
                     "size": case["size"], "seq": [val(case["fmt"], k) for k in case["seq"]],
                     "padval": val(case["fmt"], case["pad"])}
-            for strat in ("struct", "array"):
+            for strat in ("struct", "array", "struct-default-pad", "array-default-pad"):
+                if strat not in obs:
+                    continue
                 err, got, msg = obs[strat]
                 ctx.count(1, nontrivial_key=key if len(case["seq"]) > case["size"] else None)
                 if err != "none":
-                    k = array_key(al, case, err, got, obs["native"]) if strat == "array" else "C18:chunks.struct-raises-" + err
+                    k = array_key(al, case, err, got, obs["native"]) if strat == "array" else "C18:chunks.%s-raises-%s" % (strat, err)
                     ctx.violation(k, dict(desc, call="chunks.%s" % strat, observed="%s: %s" % (err, msg)))
                     continue
                 ok = len(got) >= len(exp) and (not done or len(got) == len(exp))
